@@ -98,6 +98,25 @@ func specialRoundTrip(c *specialCtx) {
 				}
 			}
 		}
+		// the property's own scenario: every row, one after the other, into ONE fresh terminal
+		// (what the last run of a row leaves in force must not leak into the next row)
+		{
+			fresh, _ := newImpl(cs.Mode, cs.Grid, w, h)
+			for y := 0; y < h; y++ {
+				if p := feedAll(fresh, []byte(fmt.Sprintf("\x1b[%d;1H%s", y+1, im.term.ANSILine(y)))); p != "" {
+					c.violation("roundtrip-panic", p, cs)
+					return
+				}
+			}
+			got := rowsOfActive(fresh)
+			for y := 0; y < h && y < len(got); y++ {
+				if rowString(got[y]) != rowString(orig[y]) {
+					c.violation("ansiline-roundtrip-all-rows", fmt.Sprintf("all rows fed in order into one fresh terminal: row %d is [%s], screen has [%s]", y, rowString(got[y]), rowString(orig[y])),
+						map[string]any{"case": cs, "row": y})
+					return
+				}
+			}
+		}
 		if i < 2 {
 			c.sample(cs.String())
 		}
@@ -723,6 +742,7 @@ type pipeBackend struct {
 	r     *io.PipeReader
 	wmu   sync.Mutex
 	wrote int
+	sum   int
 	// repaint: when set, SetSize behaves like an in-process application that repaints on a
 	// size change: it writes to the terminal's input and returns when that has been read
 	repaint atomic.Pointer[io.PipeWriter]
@@ -732,6 +752,9 @@ func (p *pipeBackend) Read(b []byte) (int, error) { return p.r.Read(b) }
 func (p *pipeBackend) Write(b []byte) (int, error) {
 	p.wmu.Lock()
 	p.wrote += len(b)
+	for _, c := range b { // a backend reads what it is given (after SendKey has let go of the terminal lock)
+		p.sum += int(c)
+	}
 	p.wmu.Unlock()
 	return len(b), nil
 }
@@ -869,6 +892,33 @@ func lockScenario(seed int64) int {
 		}
 	}
 
+	// 1a. a panic inside a locked section (a rejected Resize, a reader asking for a row that does
+	// not exist) must not leave the lock held
+	{
+		free := func() bool {
+			for deadline := time.Now().Add(3 * time.Second); time.Now().Before(deadline); time.Sleep(200 * time.Microsecond) {
+				if vt.TryLock() {
+					return true
+				}
+			}
+			return false
+		}
+		for k, f := range []func(){
+			func() { _ = term.Resize(0, 0) },
+			func() { term.WithLock(func() { panic("reader failed") }) },
+			func() { term.WithLock(func() { _ = term.StyledLine(0, 5, 1000) }) },
+		} {
+			func() {
+				defer func() { _ = recover() }()
+				f()
+			}()
+			if !free() {
+				fmt.Printf("deadlock: the terminal lock stayed held after a panic inside a locked section (case %d)\n", k)
+				return 11
+			}
+		}
+	}
+
 	// 1b. a backend whose SetSize feeds the terminal and waits until that has been read (an
 	// in-process application repainting on resize): Resize must not hold the lock across it
 	{
@@ -937,6 +987,21 @@ func lockScenario(seed int64) int {
 		}(g)
 	}
 	wg.Add(1)
+	go func() { // a second typist: plain character keys only (whatever SendKey hands to the backend must be its own)
+		defer wg.Done()
+		rr := newPrng(uint64(seed) + 12)
+		for {
+			select {
+			case <-stop:
+				return
+			default:
+			}
+			_, _ = term.SendKey(te.KeyEvent{Code: te.KeyRune, Rune: rune('a' + rr.intn(26))})
+			_, _ = term.SendKey(te.KeyEvent{Code: te.KeyRune, Rune: rune(0x4e00 + rr.intn(100))})
+			ops.Add(1)
+		}
+	}()
+	wg.Add(1)
 	go func() { // input side: keys, mouse, raw writes
 		defer wg.Done()
 		rr := newPrng(uint64(seed) + 2)
@@ -947,6 +1012,7 @@ func lockScenario(seed int64) int {
 			default:
 			}
 			_, _ = term.SendKey(te.KeyEvent{Code: te.KeyCode(rr.intn(112)), Rune: 'a', Mod: te.KeyMod(rr.intn(8))})
+			_, _ = term.SendKey(te.KeyEvent{Code: te.KeyRune, Rune: rune('A' + rr.intn(26))})
 			_, _ = vt.SendMouse(te.MouseBtn(rr.intn(4)), rr.chance(1, 2), te.MouseFlag(4*rr.intn(32)), 1+rr.intn(300), 1+rr.intn(50))
 			_, _ = term.Write([]byte("typed"))
 			ops.Add(1)
